@@ -4,6 +4,7 @@ import (
 	"fmt"
 	"go/token"
 	"go/types"
+	"sort"
 	"strings"
 
 	"golang.org/x/tools/go/ssa"
@@ -150,8 +151,8 @@ func (vc *FnVC) call(c ssa.CallInstruction, val *ssa.Call) {
 	sig := cc.Signature()
 	nres := sig.Results().Len()
 	name := calleeShort(cc)
-	vc.callOrd[name]++
-	ord := vc.callOrd[name]
+	ord := vc.siteOrdinal(c, name)
+	vc.callOrd[name] = ord
 	callee, ct := vc.resolveCallee(cc)
 
 	var args []TV
@@ -360,6 +361,32 @@ func (vc *FnVC) mapSiteDone() {
 		vc.cur = vc.applyCallGhostsX(vc.pendingSite, vc.pendingArgs, nil, vc.cur, nil)
 		vc.pendingSite = ""
 	}
+}
+
+// siteOrdinal: the k-th call of `name` in source order (stable under CFG reordering).
+func (vc *FnVC) siteOrdinal(c ssa.CallInstruction, name string) int {
+	if vc.siteOrd == nil {
+		vc.siteOrd = map[ssa.Instruction]int{}
+		byName := map[string][]ssa.CallInstruction{}
+		for _, b := range vc.fn.Blocks {
+			for _, in := range b.Instrs {
+				if ci, ok := in.(ssa.CallInstruction); ok {
+					if _, isBuiltin := ci.Common().Value.(*ssa.Builtin); isBuiltin {
+						continue
+					}
+					n := calleeShort(ci.Common())
+					byName[n] = append(byName[n], ci)
+				}
+			}
+		}
+		for _, list := range byName {
+			sort.SliceStable(list, func(i, j int) bool { return list[i].Pos() < list[j].Pos() })
+			for i, ci := range list {
+				vc.siteOrd[ci] = i + 1
+			}
+		}
+	}
+	return vc.siteOrd[c]
 }
 
 func firstNonEmpty(a, b string) string {
